@@ -2,6 +2,7 @@ package main
 
 import (
 	"fmt"
+	"os"
 	"sort"
 	"strings"
 	"time"
@@ -229,6 +230,7 @@ type Env struct {
 	unixTime   int64
 	moduleAddr sdk.AccAddress
 	lastPanic  string
+	dead       bool
 	lastErr    string
 }
 
@@ -330,7 +332,11 @@ func (e *Env) SetBlock(height, unix int64) {
 	e.height, e.unixTime = height, unix
 	e.rootCtx = e.rootCtx.WithBlockHeader(tmproto.Header{Height: height, Time: time.Unix(unix, 0).UTC()})
 	cms := e.ms.CacheMultiStore()
-	e.ctx = sdk.NewContext(cms, tmproto.Header{Height: height, Time: time.Unix(unix, 0).UTC()}, false, log.NewNopLogger())
+	var lg log.Logger = log.NewNopLogger()
+	if os.Getenv("VERIF_LOG") != "" {
+		lg = log.NewTMLogger(os.Stderr)
+	}
+	e.ctx = sdk.NewContext(cms, tmproto.Header{Height: height, Time: time.Unix(unix, 0).UTC()}, false, lg)
 	e.writeBlk = cms.Write
 	e.blockOpen = true
 }
